@@ -682,20 +682,26 @@ def canon_region(r):
     cls = type(r).__name__
     sky = cls.endswith('SkyRegion')
     kind = cls.replace('PixelRegion', '').replace('SkyRegion', '').lower()
+    # EVERY coordinate object of the region (centre | all vertices | start AND end), each with its own frame
     if kind in ('polygon',):
-        pts = _coords(r.vertices, sky)
-        c0 = r.vertices
+        objs = [r.vertices]
     elif kind == 'line':
-        pts = _coords(r.start, sky) + _coords(r.end, sky)
-        c0 = r.start
+        objs = [r.start, r.end]
     else:
-        pts = _coords(r.center, sky)
-        c0 = r.center
-    frame = REAL_FRAME.get(c0.frame.name, 'other:' + c0.frame.name) if sky else 'image'
+        objs = [r.center]
+    pts, ptframes = [], []
+    for c in objs:
+        is_sky = hasattr(c, 'frame')
+        cp = _coords(c, is_sky)
+        pts += cp
+        ptframes += [REAL_FRAME.get(c.frame.name, 'other:' + c.frame.name) if is_sky else 'image'] * len(cp)
+    frame = ptframes[0] if len(set(ptframes)) == 1 else 'mixed:' + ','.join(ptframes)
+    if ('image' in ptframes) == sky:
+        frame = 'mixed:' + ','.join(ptframes)
     sizes = [_qty(getattr(r, a), sky) for a in SIZE_ATTRS.get(kind, [])]
     angle = _qty(r.angle, True) if kind in ('ellipse', 'rectangle', 'ellipseannulus', 'rectangleannulus') else None
     inc = r.meta.get('include', True)
-    return {'kind': kind, 'frame': frame, 'pts': pts, 'sizes': sizes, 'angle': angle,
+    return {'kind': kind, 'frame': frame, 'ptframes': ptframes, 'pts': pts, 'sizes': sizes, 'angle': angle,
             'incl': bool(int(inc)) if not isinstance(inc, str) else inc, 'view': real_view(r, kind)}
 
 
@@ -735,7 +741,7 @@ def val_close(a, b, exact):
 def region_diffs(a, b, exact):
     """fields in which real region a differs from reference region b."""
     d = []
-    for k in ('kind', 'frame', 'incl'):
+    for k in ('kind', 'frame', 'ptframes', 'incl'):      # ptframes: the frame of every single coordinate
         if a[k] != b[k]:
             d.append(k)
     if len(a['pts']) != len(b['pts']) or not all(val_close(x[0], y[0], exact) and val_close(x[1], y[1], exact)
@@ -835,6 +841,17 @@ class Check(PropertyCheck):
             for sh in sorted(set(SHAPES)):
                 st = g.region(FRAME_OF[w], shape=sh)
                 cases.append({'kind': 'file', 'lines': [[{'t': 'frame', 'word': vcase(rng, w)}], [st]], 'join': ';', 'final_nl': True})
+        # multi-coordinate shapes under every frame word, as `frame;shape(...)` on one physical line AFTER a change of frame
+        # (the frame must reach every coordinate: line start and end, every polygon vertex)
+        words = sorted(FRAME_OF)
+        for i, w in enumerate(words):
+            for sh in ('line', 'polygon'):
+                w0 = words[(i + 3) % len(words)]
+                first = g.region(FRAME_OF[w0], shape=sh)
+                st = g.region(FRAME_OF[w], shape=sh)
+                cases.append({'kind': 'file', 'lines': [[{'t': 'frame', 'word': vcase(rng, w0)}], [first],
+                                                        [{'t': 'frame', 'word': vcase(rng, w)}, st]],
+                              'join': ';', 'final_nl': True})
         return cases
 
     # ---------------------------------------------------------------- real
@@ -924,7 +941,7 @@ class Check(PropertyCheck):
             return {'fail': r['fail']}
         regs = []
         for x in r['regions']:
-            regs.append({'kind': x['kind'], 'frame': x['frame'], 'pts': x['pts'], 'sizes': x['sizes'], 'angle': x['angle'],
+            regs.append({'kind': x['kind'], 'frame': x['frame'], 'ptframes': [x['frame']] * len(x['pts']), 'pts': x['pts'], 'sizes': x['sizes'], 'angle': x['angle'],
                          'incl': x['incl'], 'view': expected_view(x['kind'], x['props']), 'src': int(x['src']),
                          'props': x['props']})
         return {'regions': regs, 'nstmts': int(r['nstmts']), 'lex_ok': r.get('lex_ok'), 'lex_diff': r.get('lex_diff')}
@@ -1010,6 +1027,10 @@ class Check(PropertyCheck):
                 bad('separator_dependent' if name in ('nl', 'semi') else 'punctuation_dependent' if name in ('paren', 'bare')
                     else 'unsupported_line_affects_others',
                     f'{what} parses to {len(v["regions"])} regions that differ from the {len(base)} of the original')
+        # every coordinate of a region (line start AND end, all vertices) is in one and the same frame
+        for n, g in enumerate(base):
+            if len(set(g['ptframes'])) != 1:
+                bad('coordinate_frames_differ', f'region {n} ({g["kind"]}): its coordinates are in frames {g["ptframes"]}')
         fl = var['frameless']
         if 'exc' in fl:
             bad('variant_exception', f'frameless: {fl["exc"]}')
